@@ -579,3 +579,35 @@ func AddrOfField(v ssa.Value, field string) (ssa.Value, bool) {
 	}
 	return nil, false
 }
+
+// HasLicensingEdgeOrValue reports whether pred's atom occurs in fn as a branch condition
+// or as a returned boolean value (directly or as a phi operand).
+func HasLicensingEdgeOrValue(fn *ssa.Function, pred Pred) bool {
+	if countLicensing(fn, pred) > 0 {
+		return true
+	}
+	found := false
+	var visit func(v ssa.Value, d int)
+	visit = func(v ssa.Value, d int) {
+		if v == nil || d > 4 || found {
+			return
+		}
+		if phi, ok := v.(*ssa.Phi); ok {
+			for _, e := range phi.Edges {
+				visit(e, d+1)
+			}
+			return
+		}
+		if _, ok := pred.Match(Normalize(v)); ok {
+			found = true
+		}
+	}
+	Instrs(fn, func(in ssa.Instruction) {
+		if ret, ok := in.(*ssa.Return); ok {
+			for _, r := range ret.Results {
+				visit(r, 0)
+			}
+		}
+	})
+	return found
+}
